@@ -6,7 +6,7 @@ DIR="$1"; TIER="$2"; shift 2
 cd /repo || exit 2
 if [ -n "$(git status --porcelain --untracked-files=no)" ]; then echo "repo dirty"; exit 2; fi
 if ! git apply "$DIR/patch.diff"; then echo "patch does not apply"; exit 2; fi
-trap 'git -C /repo checkout -- . ' EXIT
+trap 'git -C /repo checkout -- . ; (cd /verif/mc && cargo build --release --offline -q 2>/dev/null)' EXIT
 for id in "$@"; do
   out=$(cd /verif && timeout 1800 ./check "$id" --tier "$TIER" 2>&1)
   rc=$?
